@@ -206,4 +206,48 @@ example :
     let inc : Node := { frame := [], cls := "Mo".toList, isInclude := true, isExtend := false }
     [sup, inc].foldl addParent [objectNode] = [sup, inc, objectNode] := by decide
 
+
+/-! ### Protected calls: the ancestor walk -/
+
+theorem anyAncestor_mem (fuel : Nat) (g : Inh) (ps : List Node) (target : Node) (seen : List Node) (h : target ∈ ps) :
+    (anyAncestor fuel g ps target seen).1 = true := by
+  induction ps generalizing seen with
+  | nil => simp at h
+  | cons p rest ih =>
+    simp only [anyAncestor]
+    by_cases hp : (p == target) = true
+    · simp [hp]
+    · simp only [hp]
+      have hmem : target ∈ rest := by
+        rcases List.mem_cons.mp h with h1 | h1
+        · subst h1; simp at hp
+        · exact h1
+      cases hrec : isAncestor fuel g p target seen with
+      | mk b s =>
+        cases b
+        · exact ih s hmem
+        · rfl
+
+/-- **A protected method may be called from a direct subclass**: when the defining class is among the parents of
+the calling class, the check passes — whatever else the graph holds (cycles included). -/
+theorem protected_from_child (fuel : Nat) (g : Inh) (caller defined : Node)
+    (h : defined ∈ parentsOfNode g caller) : protectedOk (fuel + 1) g caller defined = true := by
+  simp [protectedOk, isAncestor, anyAncestor_mem fuel g _ defined [caller] h]
+
+/-- the class itself may call its protected methods on other instances -/
+theorem protected_from_self (fuel : Nat) (g : Inh) (c : Node) : protectedOk fuel g c c = true := by
+  simp [protectedOk]
+
+/-! tests on one concrete graph (labelled as tests): a grandchild passes, an outsider does not, and a cyclic
+declaration (`class L < R`, `class R < L`) ends the walk -/
+def tNode (c : String) : Node := { frame := [], cls := c.toList }
+def tGraph : Inh := [(([], "C".toList), [tNode "B", objectNode]), (([], "B".toList), [tNode "A", objectNode]),
+                     (([], "L".toList), [tNode "R"]), (([], "R".toList), [tNode "L"])]
+example : protectedOk 4 tGraph (tNode "C") (tNode "A") = true := by
+  simp [protectedOk, isAncestor, anyAncestor, parentsOfNode, parentsOf, tGraph, tNode, Frame.lookup, objectNode]
+example : protectedOk 4 tGraph (tNode "E") (tNode "A") = false := by
+  simp [protectedOk, isAncestor, anyAncestor, parentsOfNode, parentsOf, tGraph, tNode, Frame.lookup, objectNode]
+example : protectedOk 4 tGraph (tNode "L") (tNode "A") = false := by
+  simp [protectedOk, isAncestor, anyAncestor, parentsOfNode, parentsOf, tGraph, tNode, Frame.lookup, objectNode]
+
 end RubyTi.C16
